@@ -29,6 +29,11 @@ for _p in ("C01", "C02", "C03", "C04", "C05", "C06", "C07", "C08", "C15", "C19")
     PROPS[_p] = {"pkgs": [(".", "TestVerif_" + _p)], "trusted_base": _RELAY_TB, "assumptions": []}
 # C04 also covers the RFC 6062 part: the multi-allocation TCP-relay histories judged by the isolation predicate
 PROPS["C04"]["pkgs"] = [(".", "TestVerif_C04"), (".", "TestVerif_C04TCP")]
+# C03 also covers the RFC 6062 part: ConnectionBind authorisation on the same TCP-relay histories (Check/C03TcpCheck.v)
+PROPS["C03"]["pkgs"] = [(".", "TestVerif_C03"), (".", "TestVerif_C03TCP")]
+PROPS["C03"]["trusted_base"] = _RELAY_TB + [
+    "TCP relay part: peer and data connections are in-memory streams; dial outcomes and the server's random connection ids are "
+    "inputs of Model/TcpRelay.v (as for C16)"]
 # C15 also judges the forced teardown schedules (threads parked inside lifecycle callbacks) of the allocation package
 PROPS["C15"]["pkgs"] = [(".", "TestVerif_C15"), ("./internal/allocation", "TestVerif_C15TD")]
 PROPS["C15"]["pre"] = "c15td:pre"
@@ -53,13 +58,16 @@ PROPS["C17"] = {"pkgs": [(".", "TestVerif_C17")],
                                  "with crypto/hmac and reports equality", "time.Now is testing/synctest's clock (starts 2000-01-01)"],
                 "assumptions": ["unix(now+duration) fits int64 (instants after 1970)", "forgery theorem: HMAC/base64/MD5 key derivation injective"]}
 
-PROPS["C12"] = {"pkgs": [(".", "TestVerif_C12")],
+PROPS["C12"] = {"pkgs": [(".", "TestVerif_C12"), (".", "TestVerif_C12Slow")],
                 "trusted_base": ["the client's socket is scripted (write outcomes are the model's environment input); responses are injected "
                                  "through Client.HandleInbound; time.AfterFunc under testing/synctest",
-                                 "the serialisation of timer callbacks and responses by Client.mutexTrMap is modelled as atomic events (C18 covers locks)"],
+                                 "the serialisation of timer callbacks and responses by Client.mutexTrMap is modelled as atomic events (C18 covers locks); the "
+                                 "forced schedules with a slow PacketConn.WriteTo (TestVerif_C12Slow, real time) exercise the places where that "
+                                 "atomicity could be lost - Close, a response or another transaction arriving while a (re)transmission is inside the "
+                                 "socket write - and are judged on 'every call returned, table empty, no panic' (Check/C18Check.v CL cases), no theorem"],
                 "assumptions": ["transaction ids are fresh (96 random bits in the implementation)"]}
 
-PROPS["C09"] = {"pkgs": [("./internal/server", "TestVerif_C09"), (".", "TestVerif_C09"), ("./internal/proto", "TestVerif_C09")],
+PROPS["C09"] = {"pkgs": [("./internal/server", "TestVerif_C09"), (".", "TestVerif_C09"), ("./internal/proto", "TestVerif_C09"), (".", "TestVerif_C09TCP")],
                 "trusted_base": ["pion/stun Message.Decode is modelled byte by byte (Model/StunMsg.v) and compared with the library on every case",
                                  "code below the dispatch that is not modelled line by line (attribute getters inside handlers, logging, runtime) "
                                  "is exercised by the correspondence runs only",
